@@ -122,10 +122,14 @@ def decide(I, name, args):
     tss = []
     for kind, members in ops:
         if kind == 'cell':
-            try:
-                v = to_fv(I.load_cell(args[members[0]], 8))
-            except Incomplete:
-                v = None        # an output-only cell that holds nothing yet
+            a_ = args[members[0]]
+            if I.mem.get((a_.reg, a_.off if isinstance(a_.off, int) else None)) is None and a_.reg.kind != 'param':
+                v = None        # an output-only cell that holds nothing yet (reading it would be an uninitialised read)
+            else:
+                try:
+                    v = to_fv(I.load_cell(a_, 8))
+                except (Incomplete, Sink):
+                    v = None
             if v is not None and not isinstance(v, FV):
                 return NotImplemented
         else:
